@@ -51,6 +51,7 @@ func checkC11(w *World, r *Report) {
 	c11KeyInputs(w, r, sites)
 	c11ReloadableInKey(w, r, ci)
 	c11NoLossyURL(w, r, sites)
+	c11HTTPCacheKey(w, r, ci)
 }
 
 // ---- C11.1 -------------------------------------------------------------------------------------
@@ -75,6 +76,12 @@ func isOrderSensitiveSink(c *ssa.CallCommon) bool {
 			return false
 		}
 		ts := rv.Type().String()
+		if it, isIface := rv.Type().Underlying().(*types.Interface); isIface && o.Name() == "Write" && it.NumMethods() > 0 {
+			// any writer-shaped interface (Write([]byte) (int, error))
+			if sg, ok := o.Type().(*types.Signature); ok && sg.Params().Len() == 1 && sg.Results().Len() == 2 {
+				return true
+			}
+		}
 		return strings.Contains(ts, "hash.Hash") || strings.Contains(ts, "bytes.Buffer") || strings.Contains(ts, "strings.Builder") || strings.Contains(ts, "io.Writer")
 	}
 	return false
@@ -1028,5 +1035,116 @@ func c11NoLossyURL(w *World, r *Report, sites []*cachingSite) {
 			}
 			r.Ob(ri, w.FnName(kf)+"|no-lossy-url-normalisation", kf.Pos(), ok, msg)
 		}
+	}
+}
+
+// ---- C11.8 -------------------------------------------------------------------------------------
+
+// c11HTTPCacheKey: the key of the HTTP response cache (internal/httpcache) must cover everything
+// that selects the response: the absolute request URL (scheme and host as well as path and query),
+// the method and the presented credential. A key that leaves out one of them serves a response
+// fetched for a different request (the key set of another identity provider that happens to use
+// the same path). Decided on the key function: which request components reach its digest.
+func c11HTTPCacheKey(w *World, r *Report, ci *types.Named) {
+	httpCacheKey(w, r, ci, "C11.8", "the key of the HTTP response cache covers the absolute URL (host, path, query), the method and the Authorization header of the request")
+}
+
+func httpCacheKey(w *World, r *Report, ci *types.Named, id, text string) {
+	ri := r.Rule(id, 5, text)
+	pkg := modPath + "/internal/httpcache"
+	keyFns := map[*ssa.Function]bool{}
+	for _, name := range []string{"Get", "Set"} {
+		for _, c := range cacheCalls(w, ci, name) {
+			if fnPkgPath(c.Parent()) != pkg {
+				continue
+			}
+			args := callArgs(c.Common())
+			if len(args) < 2 {
+				continue
+			}
+			for _, o := range w.Origins(args[1], nil) {
+				if kc, _ := resultOfCall(o); kc != nil {
+					if cal := kc.Common().StaticCallee(); cal != nil && fnPkgPath(cal) == pkg {
+						keyFns[cal] = true
+					}
+				}
+			}
+		}
+	}
+	if len(keyFns) != 1 {
+		r.Undecided(ri, fmt.Sprintf("expected one key function of the HTTP cache, found %d", len(keyFns)))
+		return
+	}
+	for k := range keyFns {
+		r.Analysed(w.FnName(k))
+		var sinks []ssa.Value
+		for _, ia := range withHelperBodies(k) {
+			if c, ok := ia.In.(ssa.CallInstruction); ok && isOrderSensitiveSink(c.Common()) {
+				sinks = append(sinks, callArgs(c.Common())...)
+			}
+		}
+		for _, ret := range returnsOf(k) {
+			sinks = append(sinks, ret.Results...)
+		}
+		reaches := func(pred func(v ssa.Value) bool) bool {
+			for _, s := range sinks {
+				if dependsOn(w, s, pred) {
+					return true
+				}
+			}
+			return false
+		}
+		urlCall := func(names ...string) func(v ssa.Value) bool {
+			return func(v ssa.Value) bool {
+				c, ok := v.(*ssa.Call)
+				if !ok {
+					return false
+				}
+				n := callName(c.Common())
+				for _, x := range names {
+					if n == "net/url.URL."+x {
+						return true
+					}
+				}
+				return false
+			}
+		}
+		field := func(names ...string) func(v ssa.Value) bool {
+			return func(v ssa.Value) bool {
+				_, f := fieldLoad(v)
+				if f == nil || f.Pkg() == nil || (f.Pkg().Path() != "net/url" && f.Pkg().Path() != "net/http") {
+					return false
+				}
+				for _, x := range names {
+					if f.Name() == x {
+						return true
+					}
+				}
+				return false
+			}
+		}
+		whole := reaches(urlCall("String", "Redacted"))
+		host := whole || reaches(field("Host")) || reaches(urlCall("Hostname"))
+		path := whole || reaches(urlCall("RequestURI", "EscapedPath")) || reaches(field("Path", "RawPath", "RequestURI"))
+		query := whole || reaches(urlCall("RequestURI", "Query")) || reaches(field("RawQuery", "RequestURI"))
+		method := reaches(field("Method"))
+		auth := reaches(func(v ssa.Value) bool {
+			c, ok := v.(*ssa.Call)
+			if !ok || callName(c.Common()) != "net/http.Header.Get" {
+				return false
+			}
+			for _, a := range c.Common().Args {
+				if s, ok := constString(a); ok && strings.EqualFold(s, "Authorization") {
+					return true
+				}
+			}
+			return false
+		})
+		name := w.FnName(k)
+		r.Ob(ri, name+"|host-in-key", k.Pos(), host, "the key of the HTTP response cache does not depend on the host of the request: endpoints on different hosts with the same path share an entry")
+		r.Ob(ri, name+"|path-in-key", k.Pos(), path, "the key of the HTTP response cache does not depend on the request path")
+		r.Ob(ri, name+"|query-in-key", k.Pos(), query, "the key of the HTTP response cache does not depend on the query")
+		r.Ob(ri, name+"|method-in-key", k.Pos(), method, "the key of the HTTP response cache does not depend on the request method")
+		r.Ob(ri, name+"|credential-in-key", k.Pos(), auth, "the key of the HTTP response cache does not depend on the Authorization header: a response fetched with one credential is served for another")
 	}
 }
